@@ -362,6 +362,10 @@ pub struct LinkCongestionState {
     /// Ticks the `loss_uncongestive` verdict has been held, against
     /// `LOSS_UNCONGESTIVE_RETEST_TICKS`.
     uncongestive_ticks: u32,
+    /// Set once the first non-bootstrap tick has seeded `target_bps` from
+    /// observed throughput. A back-off or drain that later lands exactly on
+    /// `MIN_TARGET_BPS` must not be mistaken for "not seeded yet".
+    seeded: bool,
 }
 
 impl Default for LinkCongestionState {
@@ -390,6 +394,7 @@ impl Default for LinkCongestionState {
             backoff_entry_loss_pm: 0,
             loss_uncongestive: false,
             uncongestive_ticks: 0,
+            seeded: false,
         }
     }
 }
@@ -618,7 +623,8 @@ impl LinkCongestionState {
 
         // First non-bootstrap tick: seed the target from observed throughput
         // (or a conservative floor if no traffic yet).
-        if self.target_bps == MIN_TARGET_BPS {
+        if !self.seeded {
+            self.seeded = true;
             let seed = sane_observed.max(INITIAL_TARGET_BPS);
             self.target_bps = seed.clamp(MIN_TARGET_BPS, MAX_TARGET_BPS);
         }
